@@ -55,6 +55,8 @@ def c10(rep, tier):
         r_utf8sink.run_unsafe(p, rep)
         r_verbatim.buffered_render(p, rep)
         r_wprop.run_sink_identity(p, rep)
+        # a failed write returns early: nothing a renderable staged may survive in the compiled node (no interior mutability)
+        r_freeze.run_freeze(p, rep)
         rep.analysed["config:all"] = {"bodies": len(p.fns), "crates": p.crates}
 
 
@@ -65,6 +67,11 @@ def c18(rep, tier):
     r_scope.run_build(p, rep)
     r_scope.run_newruntime(p, rep)
     rep.analysed["config:all"] = {"bodies": len(p.fns)}
+
+
+def _partial_files(fn):
+    f = fn.file
+    return "/partials/" in f or f.endswith(("tags/include_tag.rs", "tags/render_tag.rs", "jekyll/include_tag.rs", "src/partials.rs"))
 
 
 def c08(rep, tier):
@@ -78,6 +85,12 @@ def c08(rep, tier):
     r_pair.check_loop_reset(p, rep, "<liquid_lib::stdlib::tags::render_tag::Render as liquid_core::runtime::renderable::Renderable>::render_to", "Render::render_to(for)")
     r_partials.run_loud(p, rep)
     r_freeze.run_freeze(p, rep)
+    # "a break inside an include ends the caller's loop": the enclosing template polls after every element, tags included
+    r_pair.run_template_poll(p, rep)
+    r_pair.run_interrupt_tags(p, rep)
+    # "never a crash": panic-capable sites in the partial stores and the two tags
+    g = grammar.load(facts.REPO)
+    r_panic.run(p, rep, g, "both", only=_partial_files)
     rep.analysed["config:all"] = {"bodies": len(p.fns)}
 
 
@@ -119,6 +132,8 @@ def c06(rep, tier):
     r_table.run_existence(p, rep)
     r_table.run_truth_table(p, rep)
     r_cmp.run_eqonly(p, rep)
+    r_cmp.run_contains(p, rep)
+    r_parsers.run_when_values(p, rep)
     r_pair.run_argflow(p, rep)
     rep.analysed["config:all"] = {"bodies": len(p.fns)}
 
@@ -130,6 +145,7 @@ def c09(rep, tier):
     r_lock.run_ambient(p, rep)
     r_scope.run_newruntime(p, rep)
     r_lock.run_lock(p, rep)
+    r_partials.run_cache_key(p, rep)
     r_freeze.run_autos(p, rep)
     r_utf8sink.run_unsafe(p, rep)
     rep.analysed["config:all"] = {"bodies": len(p.fns)}
@@ -152,8 +168,11 @@ def c19(rep, tier):
     r_partials.run_pipeline(p, rep)
     r_partials.run_name_keyed(p, rep)
     r_partials.run_source_keyed(p, rep)
+    r_partials.run_cache_key(p, rep)
     r_partials.run_loud(p, rep)
     r_lock.run_lock(p, rep)
+    g = grammar.load(facts.REPO)
+    r_panic.run(p, rep, g, "both", only=_partial_files)
     rep.analysed["config:all"] = {"bodies": len(p.fns)}
 
 
@@ -274,6 +293,7 @@ def c07(rep, tier):
     r_lookup.run_overlay(p, rep)
     r_lookup.run_literal_verbatim(p, rep)
     r_lookup.run_noclamp(p, rep)
+    r_lookup.run_path_verbatim(p, rep)
     # literal obligations of parse_literal (shared with C01): grammar facts for every literal conversion
     sub = type(rep)(rep.prop, rep.tier)
     r_panic.run(p, sub, g, "parse")
@@ -348,6 +368,7 @@ PROPS = {
             "(replace/chain/trace..) pass their receiver through; (S3) buffered render is render_to into one fresh Vec "
             "converted without transformation; (S4) only write_fmt (str-derived bytes) reaches the sink, never a bare write; the sink handed on is always the "
             "caller's own writer or a local Vec (no buffering adapter whose flush/Drop can lose an error); unsafe census. "
+            "No Renderable has interior-mutable state (R-FREEZE), so bytes staged before a failed write cannot survive in the compiled template. "
             "NOT decided: short-count behaviour inside std's write_fmt/write_all (trusted), and byte-equality of outputs."
         ),
         "trusted": TRUST_COMMON,
@@ -380,6 +401,9 @@ PROPS = {
             "include hands &StackFrame<caller,args>, each layered directly over the caller's runtime; SandboxedStackFrame::get/try_get/roots never "
             "call the parent and its registers are its own, while set_global of the fresh GlobalFrame is own; render-for resets the interrupt "
             "after every body render before the back-edge or exit and Break leaves the loop; include/render fetch the partial with the failing lookup and "
+            "propagate; the enclosing Template polls the interrupt register after every element unconditionally and break/continue set it unconditionally (so a break "
+            "inside an include ends the caller's loop); argument expressions are evaluated against the caller's runtime (R-ARGEVAL); every panic-capable site in the "
+            "partial stores and the two tags is discharged (R-PANIC over those files: a missing partial is an error, not a crash); "
             "propagate; the tags hold no interior-mutable state (no memoised partial). NOT decided: non-interference of whole programs, error text, partial-store behaviour (C19)."
         ),
         "trusted": TRUST_COMMON,
@@ -431,6 +455,8 @@ PROPS = {
             "the right variants; and/or short-circuit on the correct edge; Disjunction is built only over conjunction chains (x or y and z = x or (y and z)); a "
             "bare value uses the non-failing lookup and State::Truthy; the truthiness table (numbers, dates, strings, arrays, objects true; nil false) is "
             "read from every query_state; case/when matches by == only with no kind dispatch; unless builds mode=false, if/elsif mode=true. "
+            "`contains` on an array decides membership by ValueViewCmp == only, never by a string rendering (R-CONTAINS); every value of a `when` list reaches the "
+            "list before the next token is read and nothing compares/removes values at parse time (R-KEEPVALS). "
             "NOT decided: the value of each comparison (C11)."
         ),
         "trusted": TRUST_COMMON,
@@ -448,6 +474,7 @@ PROPS = {
             "language)); statics are immutable or LazyLock<Regex>; no thread_local/static mut; no ambient read (clock, env, fs) on the render path "
             "except the date parser's explicit now/today arm; render_to builds its runtime inside the call and Registers are created only by "
             "RuntimeCore::default / SandboxedStackFrame::new; the built runtime is !Sync per rustc's trait solver. "
+            "every write to the lazy cache is insert(requested name, result) with the key a plain copy of the name parameter (R-CACHEKEY: no alias entries). "
             "NOT decided: equality of results across histories (follows only if no other channel exists), hash iteration order."
         ),
         "trusted": TRUST_COMMON + ["rustc trait solver for Send/Sync/Freeze of closed types", "std: UnsafeCell is the only source of interior mutability; no user unsafe (census checked)"],
@@ -463,6 +490,7 @@ PROPS = {
             "every PartialCompiler::compile returns Ok on every path (no `?`), the eager store keeps one Result per name and its get/try_get answers derive "
             "from store.get(name) only; failing and optional lookups never delegate to each other; the lazy cache is keyed by the requested name itself "
             "with lookup+compile+insert under one lock; include/render use the failing lookup and propagate its error. "
+            "Every write to the lazy cache is insert(requested name, result), key = plain copy of the name (R-CACHEKEY); panic-capable sites in the stores are discharged (R-PANIC). "
             "NOT decided: observational equivalence of the policies on every scenario."
         ),
         "trusted": TRUST_COMMON,
@@ -596,6 +624,8 @@ PROPS = {
             "optional lookups; an integer index goes only to ArrayView::get, names to the overlay, object `size` is a fallback of the real key; each lookup step consumes "
             "one path element; index conversion neither clamps nor wraps; string literals are literal[1..len-1] verbatim and numeric/boolean literals are token.parse() with "
             "no defaulting or sign surgery; float/bool literal conversions cannot fail (grammar language); every match over literal "
+            "Variable::evaluate/try_evaluate push the scalar view of each evaluated index unmodified (R-PATHVERBATIM: no to_integer/ScalarCow::new/to_kstr between "
+            "evaluation and Path::push); a missing first/last/element is never defaulted (R-OVERLAY); "
             "kinds covers the grammar's alternatives. NOT decided: negative-index arithmetic, printed form of each literal. Known finding: F-LIT64."
         ),
         "trusted": TRUST_COMMON + ["pest_meta grammar front end"],
